@@ -103,6 +103,18 @@ CHECKS['C18'] = dict(
     technique='symbolic execution of the Python source + Z3 QF_NRA/NIRA per path; lemmas (cut rule); Exp/Log summary from C01',
 )
 
+CHECKS['C05'] = dict(
+    level='model_checking',
+    text='Symbolic execution of the real Arm class (constructor, initialize, FK with clamping, move, setArbitraryHome, '
+         'restoreOriginalEE, randomPos, joint-frame queries) on arms with concrete rational geometry built at identity and '
+         'non-identity bases, joint vectors symbolic: after every step of every operation history up to the bound the '
+         'forward kinematics equals an independent product-of-exponentials oracle built from the constructor arguments '
+         '(base * PoE * home tool pose, out-of-limit joints clamped) and the reported tool pose, base pose, joint frames '
+         'and defaulted queries agree with the stored joint state; each an obligation per path.',
+    design='5/C05',
+    technique='symbolic execution of the Python source over all short operation histories + Z3 per path; PoE oracle from constructor arguments',
+)
+
 NOT_APPLICABLE = {
 }
 
